@@ -208,11 +208,11 @@ MANIFEST = dict(
           "(C05_vchain_exact, C05_vchain_pattern, and C05_vchain_placed for any pairwise-distinct placement); with any number of targets all of them flip iff the controls are all 1 (C05_vchain_multi_target); relative-phase mode = that permutation "
           "times a +-1 diagonal (C05_vchain_relphase); (ii) LinearMcx with k>=6 controls and every control pattern: the model's four alternating "
           "V-chains on their exact qubit lists are the exact MCX, borrowed ancilla restored for every input state (C05_linear_mcx, via Lemma 9 "
-          "C05_lemma9); (iii) majority: the degree list is translated from qclib/gates/majority.py on every run and proved, for all n and all inputs, "
+          "C05_lemma9), extended to every k >= 1 including the small-k dispatch on single mcx gates (C05_linear_mcx_all); the action_only variant equals the exact gate up to an invertible circuit on the control qubits only (C05_linear_mcx_action_only); (iii) majority: the degree list is translated from qclib/gates/majority.py on every run and proved, for all n and all inputs, "
           "to flip the target iff at least half of the controls are 1 (C05_majority, C05_majority_degrees). Tie: gate-by-gate comparison, inside Coq, of the "
           "models with the flattened definitions for k up to 16/48 (vchain: all flags, 1-3 targets, patterns) and 24/64 (LinearMcx) - instances of >100 qubits "
           "that no simulator reaches; translated degree list executed against CPython for n<=64/128. Direct evaluation by random-state evolution supplies replays. "
-          "PARTIAL: multi-target fans, the action_only tail and the <=5-control branches that are single Qiskit gates are corresponded and evaluated, not proved."),
+          "PARTIAL: the action_only tail of McxVchainDirty alone (outside LinearMcx) and the <=3-control branches that are single Qiskit gates are corresponded and evaluated, not proved."),
     note="Modelled, not verified: Qiskit's x/cx/ccx/c3x/c4x/mcx/u gates and circuit composition (append of sub-circuits on qubit lists, mirrored by `relabel`).",
     technique="Coq proof (monomial-operator sandwich induction; placement extension; Lemma-9 composition; X-conjugation; Pascal/triangular induction) + translator-regenerated model + gate-list correspondence in Coq (vm_compute) + numpy state evolution",
     design_ref="DESIGN.md section 4, C05")
